@@ -39,7 +39,7 @@ def step_cases(cfgs, universe, ops, props_, tier, seed, dlens=None, lens=None, r
     return cases
 
 
-def run_onestep(pid, tier, seed, cfgs_quick, cfgs_thorough, ops, extra_props=(), rule='', perm=False, overlay_plan=None):
+def run_onestep(pid, tier, seed, cfgs_quick, cfgs_thorough, ops, extra_props=(), rule='', perm=False, overlay_plan=None, more=()):
     ck = Check(pid, tier, seed)
     prog = load_program()
     ck.selftest = quick_selftest(prog, seed, 12 if tier == 'quick' else 150)
@@ -62,6 +62,8 @@ def run_onestep(pid, tier, seed, cfgs_quick, cfgs_thorough, ops, extra_props=(),
         for (universe, nlayers, kw) in overlay_plan:
             ocases += ovl_cases(universe, nlayers, props_, seed, **kw)
         ck.add(run_cases(prog, overlay.run_history_case, ocases), 'overlay bounded histories (same monitors)')
+    for fn_, cs_, desc_ in more:
+        ck.add(run_cases(prog, fn_, cs_), desc_)
     ck.assumptions = COMMON_ASSUMPTIONS
     ck.rule = rule or 'a case = (configuration, well-formed tree shape, operation, target path); distinct by construction; non-trivial = the tree shape (states) is non-empty or the operation touches the root'
     return ck.finish(prog)
@@ -73,7 +75,7 @@ ALL_OPS = onestep.PRIMS + onestep.OBSERVERS + onestep.COMPOSITES
 @prop('C01')
 def c01(tier, seed):
     return run_onestep('C01', tier, seed, ['mem', 'alt:/a'], ['mem', 'alt:/a', 'alt:/a/b', 'alt:', 'altalt'],
-                       onestep.PRIMS + onestep.OBSERVERS)
+                       onestep.PRIMS + onestep.OBSERVERS + onestep.COMPOSITES)
 
 
 @prop('C03')
@@ -329,7 +331,10 @@ def c12(tier, seed):
     plan = [('UO3', 2, dict(ncfg=50 if tier == 'quick' else None, k1_ops=overlay.HIST_OPS + overlay.OBS_OPS, k2=3 if tier == 'quick' else 30))]
     if tier != 'quick':
         plan.append(('UO3', 3, dict(ncfg=200, k1_ops=overlay.HIST_OPS + overlay.OBS_OPS, k2=5)))
-    return run_onestep('C12', tier, seed, ['mem', 'alt:/a'], ['mem', 'alt:/a', 'alt:/a/b', 'altalt'], ALL_OPS, overlay_plan=plan)
+    from . import transfer
+    tc = transfer.transfer_cases(['same_mem', 'two_mem', 'same_alt', 'same_altalt', 'mem_to_alt'] if tier == 'quick' else transfer.PAIRS, ['C12'], tier, seed)
+    return run_onestep('C12', tier, seed, ['mem', 'alt:/a'], ['mem', 'alt:/a', 'alt:/a/b', 'altalt'], ALL_OPS, overlay_plan=plan,
+                       more=[(transfer.run_transfer_case, tc, 'transfer operations between instance pairs (error-path monitor)')])
 
 
 @prop('C11')
@@ -344,10 +349,41 @@ def c11(tier, seed):
         pairs, bufs = transfer.PAIRS, (1, 2)
     cases = transfer.transfer_cases(pairs, ['C11'], tier, seed, bufs)
     ck.add(run_cases(prog, transfer.run_transfer_case, cases), 'copy_file/move_file/copy_dir/move_dir between instance pairs, every source tree x destination situation')
+    scases = transfer.transfer_cases(['same_mem', 'two_mem'] if tier == 'quick' else ['same_mem', 'two_mem', 'same_alt', 'mem_to_alt'], ['C11'], tier, seed, (2,), universe='UTS')
+    ck.add(run_cases(prog, transfer.run_transfer_case, scases), 'same with symbolic child names (solver decides how names of nested entries relate to their directory name)')
     comp = step_cases(['mem', 'alt:/a'] if tier == 'quick' else ['mem', 'alt:/a', 'altalt'], 'U5', onestep.COMPOSITES, ['C11'], tier, seed, tag='C11')
     ck.add(run_cases(prog, onestep.run_step_case, comp), 'create_dir_all / remove_dir_all from every well-formed tree on every path')
     ck.bounds = {'universe': 'UT: source {a, a/b, a/b/c, f}, destination {x, x/b, x/b/c}', 'instance_pairs': pairs, 'file_bytes': '0..3 symbolic',
                  'io_copy_model_buffer': list(bufs), 'excluded': 'destination inside the source subtree (documented non-termination), wrong-type sources (unspecified)'}
     ck.assumptions = COMMON_ASSUMPTIONS + ['io::copy is a loop over the real reader/writer with a small model buffer (the 8 KiB constant of std is outside the claim)']
     ck.rule = 'a state = (instance pair, source tree shape, destination situation); a transition = one transfer call path; non-trivial = source exists'
+    return ck.finish(prog)
+
+
+@prop('C07')
+def c07(tier, seed):
+    from . import altroot
+    ck = Check('C07', tier, seed)
+    prog = load_program()
+    ck.selftest = quick_selftest(prog, seed, 12 if tier == 'quick' else 150, kinds=['alt', 'altovl', 'ovlalt', 'mem'])
+    lp_max, lq_max = (4, 4) if tier == 'quick' else (5, 6)
+    kc = [{'lp': lp, 'lq': lq} for lp in range(lp_max + 1) for lq in range(lq_max + 1)]
+    ck.add(run_cases(prog, altroot.run_kernel_case, kc), 'AltrootFS::path(q) = P + q on symbolic canonical P and q')
+    u = UNIVERSES['U4' if tier == 'quick' else 'U5']()
+    shs = shapes(u)
+    ops = onestep.PRIMS + ['read', 'read_dir', 'exists', 'create_dir_all', 'remove_dir_all']
+    Ps = ['/a', '/a/b'] if tier == 'quick' else ['', '/a', '/a/b']
+    cases = []
+    for P in Ps:
+        for sh in shs:
+            cases.append({'universe': u.tag, 'P': P, 'shape': sh, 'ops': ops})
+    for P in ['/a', '/a/b']:
+        cases.append({'universe': u.tag, 'P': P, 'shape': (), 'ops': ['create_dir', 'create_dir_all', 'write', 'remove_dir_all', 'exists'], 'missing': True})
+        for sh in shs[:: (6 if tier == 'quick' else 1)]:
+            cases.append({'universe': u.tag, 'P': P, 'shape': sh, 'ops': ['write', 'append', 'remove_file', 'remove_dir', 'remove_dir_all', 'create_dir', 'create_dir_all', 'read'], 'hostile': True})
+    ck.add(run_cases(prog, altroot.run_confine_case, cases), 'exactness and confinement: every op on every path (and through hostile join strings) from every well-formed state')
+    ck.bounds = {'kernel': '|P| <= %d, |q| <= %d bytes, alphabet {/ . a b U+00E9}' % (lp_max, lq_max), 'altroot_dirs': Ps, 'universe': u.tag,
+                 'hostile_join_strings': altroot.HOSTILE, 'not_encoded': 'PhysicalFS::get_path / PathBuf::join (kernel behind libc): the PhysicalFS half of the statement is outside this check'}
+    ck.assumptions = COMMON_ASSUMPTIONS + ['the path API only hands canonical paths to a backend (checked by C06); calling the FileSystem trait of an altroot directly with a non-canonical string is outside']
+    ck.rule = 'a state = (P, well-formed tree in the altroot view, entries beside and above P); transitions = call paths; kernel: (|P|,|q|) classes with symbolic bytes'
     return ck.finish(prog)
